@@ -464,6 +464,7 @@ theorem pathOpen_val (cfg : Cfg) (H : Host σ) (s s' : St σ) (a b c d e f g hh 
   · cases h
   · cases h; exact Or.inl ⟨rfl, rfl, rfl⟩
   · rename_i p hpro
+    unfold finishOpen at h
     split at h
     · cases h; exact Or.inl ⟨rfl, rfl, rfl⟩
     · cases h; exact Or.inl ⟨rfl, rfl, rfl⟩
